@@ -418,7 +418,8 @@ Theorem C06_vm_register_shares :
          (exists nx, hget (Vm.st_heap s') ua = Some (OUp (mkUp (Some loc) VNil nx))) /\
          st_stack s' = st_stack s1 /\ st_calls s' = st_calls s1 /\ st_globals s' = st_globals s1 /\
          (forall x, oview (hget (Vm.st_heap s1) x) = None -> x <> ua -> x <> ca ->
-                    hget (Vm.st_heap s') x = hget (Vm.st_heap s1) x)).
+                    hget (Vm.st_heap s') x = hget (Vm.st_heap s1) x) /\
+         heap_mono (Vm.st_heap s1) (Vm.st_heap s')).
 Proof. exact register_shares. Qed.
 Print Assumptions C06_vm_register_shares.
 
